@@ -721,6 +721,41 @@ impl Callbacks for Extract {
                                 ("ty", cx.ty(ty)),
                                 ("val", v.to_string()),
                             ]));
+                        } else if let (mir::ConstValue::Indirect { alloc_id, offset }, ty::Array(elem, _)) = (cv, ty.kind()) {
+                            // lookup tables: arrays of unsigned integers are emitted element by element
+                            let esz: Option<usize> = match elem.kind() {
+                                ty::Uint(u) => Some(u.bit_width().map(|w| (w / 8) as usize).unwrap_or(8)),
+                                _ => None,
+                            };
+                            let len = match ty.kind() {
+                                ty::Array(_, n) => n.try_to_target_usize(tcx),
+                                _ => None,
+                            };
+                            if let (Some(esz), Some(len)) = (esz, len) {
+                                if len <= 65536 {
+                                    if let rustc_middle::mir::interpret::GlobalAlloc::Memory(mem) = tcx.global_alloc(alloc_id) {
+                                        let a = mem.inner();
+                                        let start = offset.bytes() as usize;
+                                        let end = start + esz * len as usize;
+                                        if end <= a.len() {
+                                            let bytes = a.inspect_with_uninit_and_ptr_outside_interpreter(start..end);
+                                            let mut elems = Vec::new();
+                                            for k in 0..len as usize {
+                                                let mut v: u128 = 0;
+                                                for j in 0..esz {
+                                                    v |= (bytes[k * esz + j] as u128) << (8 * j);
+                                                }
+                                                elems.push(v.to_string());
+                                            }
+                                            consts.push(jobj(vec![
+                                                ("path", esc(&tcx.def_path_str(did))),
+                                                ("ty", cx.ty(ty)),
+                                                ("elems", jlist(elems)),
+                                            ]));
+                                        }
+                                    }
+                                }
+                            }
                         }
                     }
                 }
